@@ -34,6 +34,9 @@ Extracted (fail closed on any other shape):
       - Charge.add_charge_dataframe binds `self._frame` to / writes into its argument   -> src_df_adopts
       - any other method of Charge binds `self._array` / `self._frame` to, or writes into, a parameter
                                                                                         -> src_binds_param
+      - empty(), remove_from_frame() and the `array` property REPLACE the content of the stored array by binding
+        `self._array` to a new array (true) or by overwriting the stored array in place (`self._array[...] = ..`,
+        `.fill(..)`, np.copyto) (false)          -> src_reset_fresh, src_remove_fresh, src_rebuild_fresh
 """
 from __future__ import annotations
 
@@ -946,6 +949,27 @@ def _identity(tree) -> dict:
         fail(find_func(tree, "add_charge_array", "Charge"),
              f"add_charge_array: the accumulation into self._array was not found in one accepted shape ({sorted(modes)})")
 
+    # the three places that replace the content of the stored array: a new object, or in place
+    def renews(name, fns):
+        kinds = set()
+        for fn in fns:
+            al = _Alias(fn)
+            for attr, c, node in _bindings(fn, al):
+                if attr == "_array" and c == FRESH:
+                    kinds.add(True)
+            for c, node in al.written():
+                if c == STORED:
+                    kinds.add(False)
+        if len(kinds) != 1:
+            fail(fns[0] if fns else None, f"{name}: the stored array must be replaced either by a new array or in place "
+                                          f"(found {sorted(kinds)})")
+        return kinds.pop()
+
+    res["reset_fresh"] = renews("empty", [m for m in methods if m.name == "empty"])
+    res["remove_fresh"] = renews("remove_from_frame", [m for m in methods if m.name == "remove_from_frame"])
+    res["rebuild_fresh"] = renews("array", [m for m in methods if m.name == "array"
+                                            and any(ast.unparse(d) == "property" for d in m.decorator_list)])
+
     # reads: what leaves the container
     def returns(fn):
         return [n for n in ast.walk(fn) if isinstance(n, ast.Return) and n.value is not None]
@@ -1033,10 +1057,14 @@ def render(d: dict) -> str:
             f"Definition src_xr_copies : bool := {b(d['xr_copies'])}.\n"
             f"Definition src_df_adopts : bool := {b(d['df_adopts'])}.\n"
             f"Definition src_binds_param : bool := {b(d['binds_param'])}.\n"
+            f"Definition src_reset_fresh : bool := {b(d['reset_fresh'])}.\n"
+            f"Definition src_remove_fresh : bool := {b(d['remove_fresh'])}.\n"
+            f"Definition src_rebuild_fresh : bool := {b(d['rebuild_fresh'])}.\n"
             "Definition hsrc : heapparams :=\n"
             "  {| hp_add := src_add_mode; hp_writes_arg := src_add_writes_arg; hp_array_exposes := src_array_exposes;\n"
             "     hp_np_exposes := src_np_exposes; hp_xr_copies := src_xr_copies; hp_df_adopts := src_df_adopts;\n"
-            "     hp_binds_param := src_binds_param |}.\n")
+            "     hp_binds_param := src_binds_param; hp_reset_fresh := src_reset_fresh;\n"
+            "     hp_remove_fresh := src_remove_fresh; hp_rebuild_fresh := src_rebuild_fresh |}.\n")
 
 
 def translate(repo: Path) -> str:
@@ -1059,6 +1087,6 @@ FALLBACK = render(dict(
     acc=True, number=True, thr="negb (Qle_bool x (0 # 1))",
     cv="inject_Z (Z.of_nat k) * sv + sv / 2", ch="inject_Z (Z.of_nat k) * sh + sh / 2",
     add="AddInPlace", writes_arg=False, array_exposes=True, np_exposes=True, xr_copies=True, df_adopts=False,
-    binds_param=False))
+    binds_param=False, reset_fresh=True, remove_fresh=True, rebuild_fresh=True))
 
 __all__ = ["translate", "FALLBACK", "TranslationError"]
